@@ -64,3 +64,10 @@ Theorem C03_md5sums_text_roundtrip : forall ps,
   Forall (fun p => wf_md5 p = true) ps -> md5sums_read (md5sums_text ps) = Some ps.
 Proof. exact md5sums_roundtrip. Qed.
 Print Assumptions C03_md5sums_text_roundtrip.
+
+(* ... so a reader of the md5sums member finds one (digest, name) pair per regular payload file, in payload order *)
+Theorem C03_md5sums_member_lists_the_payload : forall payload,
+  Forall (fun p => wf_md5 p = true) (md5sums_model payload) ->
+  md5sums_read (md5sums_text (md5sums_model payload)) = Some (md5sums_model payload).
+Proof. intros payload H. apply md5sums_roundtrip. exact H. Qed.
+Print Assumptions C03_md5sums_member_lists_the_payload.
